@@ -37,7 +37,7 @@ ANCHORS = [("leuvenmapmatching/map/sqlite.py", "SqliteMap.read_properties"),
            ("leuvenmapmatching/map/base.py", "BaseMap.use_latlon")]
 FLOORS = {"reopen_cycles:planar": 100, "reopen_cycles:latlon": 80, "deferred_commit_histories": 50, "deferred_index_histories": 50,
           "committing_ops_checked": 1500, "reindex_checked": 100, "pickle_cycles": 60, "queries_compared": 4000,
-          "reopen_with_first_connection_open": 40, "repeated_node_adds": 100, "debug_level_histories": 300}
+          "reopen_with_first_connection_open": 40, "repeated_node_adds": 100, "debug_level_histories": 300, "linked_after_reopen": 300, "linked_after_reopen_with_links": 30}
 ASSUMPTIONS = ["a history that used no_commit ends with an explicit db.commit() before the map is reopened (the documented contract: "
                "'remember to commit later'); histories that used no_index end with the matching reindex_* call in 85 % of the cases, "
                "otherwise only original-vs-reopened (not the model) is compared on index-backed listings",
@@ -173,6 +173,10 @@ def snapshot(mp, model_labels, edges, queries):
     snap["pt_seg_module"] = mp.distance_point_to_segment.__module__.rsplit(".", 1)[-1]
     snap["seg_seg_module"] = mp.distance_segment_to_segment.__module__.rsplit(".", 1)[-1]
     snap["box_module"] = mp.box_around_point.__module__.rsplit(".", 1)[-1]
+    # every function the map object binds from the geometry libraries (by attribute, so that one added later is covered too)
+    for k, v in sorted(vars(mp).items()):
+        if callable(v) and str(getattr(v, "__module__", "")).startswith("leuvenmapmatching.util"):
+            snap[f"bound:{k}"] = v.__module__.rsplit(".", 1)[-1] + "." + getattr(v, "__name__", "?")
     snap["crs_lonlat"] = mp.crs_lonlat
     snap["crs_xy"] = mp.crs_xy
     snap["size"] = mp.size()
@@ -299,6 +303,32 @@ def check_sqlite(ctx, case):
                 ctx.violation("C18:sqlite:transaction-left-open-by-open", case, f"cycle {cyc + 1}")
             if cyc < case["cycles"] - 1 and not (case["keep_open"] and cyc % 2 == 0):
                 m2.db.close()
+        # the reopened map is USED: parallel roads are linked on it and on a freshly built sibling holding the same map
+        if case["reindexed"] and len(case["ops"]) % 3 == 0 and handles[-1] is not sm and model.edges:
+            m2 = handles[-1]
+            dist = (60.0 if latlon else 2.0)
+            sib = SqliteMap(name + "_sib", use_latlon=latlon, dir=ctx.scratch, **kw)
+            handles.append(sib)
+            try:
+                sib.add_nodes([(l, model.coords[l]) for l in labels])
+                sib.add_edges([e for e in model.edges])
+                sib.connect_parallelroads(dist=dist)
+                m2.connect_parallelroads(dist=dist)
+                ctx.count("linked_after_reopen")
+                a = {repr(e): sorted(((x, tuple(p), y, tuple(q)) for x, p, y, q in sib.edges_nbrto(e)), key=repr) for e in model.edges}
+                b = {repr(e): sorted(((x, tuple(p), y, tuple(q)) for x, p, y, q in m2.edges_nbrto(e)), key=repr) for e in model.edges}
+                if any(len(v) > len([1 for y in model.out_nbrs(eval(k)[1])]) for k, v in a.items()):
+                    ctx.count("linked_after_reopen_with_links")
+                if a != b:
+                    k = next(k for k in a if a[k] != b[k])
+                    ctx.violation("C18:sqlite:reopened-map-links-parallel-roads-differently", case,
+                                  f"connect_parallelroads({dist}) on the reopened map vs on a freshly built map: edges_nbrto({k}) {str(b[k])[:300]} vs {str(a[k])[:300]}")
+            finally:
+                try:
+                    sib.db.close()
+                    os.unlink(str(sib.db_fn))
+                except Exception:
+                    pass
         if len(kinds & {"add_node", "add_nodes", "add_edge", "add_edges"}) >= 2 and not latlon:
             ctx.nontriv(case["ops"])
         ctx.sample({"backend": "sqlite", "latlon": latlon, "ops": case["ops"][:8], "cycles": case["cycles"], "keep_open": case["keep_open"]})
